@@ -726,6 +726,14 @@ func (m *MonC15) AfterTx(o *TxOutcome) {
 			m.records("tx redelegate", o.Idx, o.Post)
 			return
 		}
+		// recorded finding orphaned-total (C04): a complete slash left the asset with a staked total but no validator
+		// shares; every token conversion then returns the whole total, so both positions are reported as worth it
+		if a.TotalValidatorShares.IsZero() && a.TotalTokens.IsPositive() {
+			rep.KnownFinding("C15", "orphaned-total", "redelegate of %s%s while the asset has a staked total of %s but no validator shares (after a complete slash of its only holder): positions are valued at the whole orphaned total (source -%s, destination +%s)", o.Amount, o.Step.Den, a.TotalTokens, ratStr(dS), ratStr(dD))
+			rep.Class("C15.known.orphaned-total")
+			m.records("tx redelegate", o.Idx, o.Post)
+			return
+		}
 		// recorded finding subshare-rule: below one delegator share on the source (validator, asset) the amount is
 		// converted to shares 1:1, so the source loses more value than arrives (the rest stays as orphan shares)
 		if pv := o.Pre.Vals[o.Val]; pv != nil && pv.HasInfo {
